@@ -115,7 +115,8 @@ type c21Ev struct {
 	s int64 // cumulative steps after that cycle
 }
 
-// c21Fit reports whether one phi fits S(c) = floor((4c+phi)/P) for all events.
+// c21Fit reports whether one phi fits S(c) = floor((4c+phi)/P) for all events (and no further step before the
+// end of cycle n; n < 0: nothing is said about what follows the last event).
 func c21Fit(evs []c21Ev, n int64, P int64) bool {
 	lo, hi := int64(-1)<<60, int64(1)<<60
 	prev := int64(0)
@@ -130,12 +131,34 @@ func c21Fit(evs []c21Ev, n int64, P int64) bool {
 		}
 		prev = e.s
 	}
-	if prev > 0 {
+	if prev > 0 && n >= 0 {
 		if b := (prev+1)*P - 4*n - 1; b < hi {
 			hi = b
 		}
 	}
 	return lo <= hi
+}
+
+// c21Pos is the observable waveform position of a channel (duty index, wave position, LFSR).
+func c21Pos(hw *machine.M, ch int) int64 {
+	switch ch {
+	case 1, 2:
+		return int64(hw.A.VerifDuty(ch))
+	case 3:
+		return int64(hw.A.VerifWavePos())
+	}
+	return int64(hw.A.VerifLFSR())
+}
+
+// c21Delta: steps made between two observed positions.
+func c21Delta(ch int, last, p int64) int64 {
+	switch ch {
+	case 1, 2:
+		return (p - last + 8) % 8
+	case 3:
+		return (p - last + 32) % 32
+	}
+	return 1
 }
 
 func c21Start(hw *machine.M, ch, f int) {
@@ -185,10 +208,18 @@ func c21Run(cas c21Case) (sig string, err error) {
 	default:
 		hw.Mp.Write(0xff21, 0xf0)
 	}
+	var preEvs []c21Ev // steps made while running at F0: machine cycles since the first trigger, cumulative steps
+	var preSteps int64
 	if cas.F0 >= 0 {
 		c21Start(hw, cas.Ch, cas.F0)
+		lastp := c21Pos(hw, cas.Ch)
 		for i := 0; i < cas.Run0; i++ {
 			hw.HW()
+			if p := c21Pos(hw, cas.Ch); p != lastp {
+				preSteps += c21Delta(cas.Ch, lastp, p)
+				lastp = p
+				preEvs = append(preEvs, c21Ev{int64(i + 1), preSteps})
+			}
 		}
 	}
 	if cas.Retune != 0 {
@@ -259,6 +290,17 @@ func c21Run(cas c21Case) (sig string, err error) {
 	}
 	if hw.Mp.Read(0xff26)&bit == 0 {
 		return "channel-stopped", fmt.Errorf("channel %d went off during the observation although length is disabled", cas.Ch)
+	}
+	if cas.Retune != 0 && len(evs) > 0 && len(preEvs) > 0 {
+		// a write to the frequency registers does not restart the period in progress: the first step after the
+		// write still falls on the grid of the old period
+		first := evs[0]
+		grid := append(append([]c21Ev{}, preEvs...), c21Ev{int64(cas.Run0) + first.c, preSteps + first.s})
+		if first.s == 1 && !c21Fit(grid, -1, int64(c21Period(cas.Ch, cas.F0))) {
+			lastPre := preEvs[len(preEvs)-1]
+			return name + "-period-restarted-by-frequency-write", fmt.Errorf("channel %d running at f=%d, frequency registers rewritten (f=%d, no trigger) %d cycles after its last step: the next step came %d cycles after that last one; the period in progress (%d clocks) must run out undisturbed",
+				cas.Ch, cas.F0, cas.F, int64(cas.Run0)-lastPre.c, int64(cas.Run0)+first.c-lastPre.c, c21Period(cas.Ch, cas.F0))
+		}
 	}
 	if cas.Retune != 0 {
 		if len(evs) < 4 {
